@@ -95,8 +95,8 @@ func init() {
 	register(&Prop{
 		ID: "C05", Level: "fault_enumeration", Race: true, TestName: "TestC05",
 		Gen: c05Gen, Batch: 20, Children: 3, PerCase: 3 * time.Second, Base: 90 * time.Second,
-		Judge: c05Judge,
-		Rule: "enumerated failure causes (each handshake field invalid in turn, short/garbage line, bad line followed by more output, silence until timeout, partial line without newline, exit before output, stdout closed while alive, crash at two hook points inside Serve) x launch method (Cmd real process, custom runner around a real process, scripted in-process runner); thorough repeats each 10x with seeded output delay. Observed: /proc state of the launched pid at Start-return and while polling up to 5 s, runner Kill calls, Kill duration, reaping, temp dir listing. Class = cause/launch",
+		Judge:       c05Judge,
+		Rule:        "enumerated failure causes (each handshake field invalid in turn, short/garbage line, bad line followed by more output, silence until timeout, partial line without newline, exit before output, stdout closed while alive, crash at two hook points inside Serve) x launch method (Cmd real process, custom runner around a real process, scripted in-process runner); thorough repeats each 10x with seeded output delay. Observed: /proc state of the launched pid at Start-return and while polling up to 5 s, runner Kill calls, Kill duration, reaping, temp dir listing. Class = cause/launch",
 		Assumptions: []string{"'shortly after' = within 5 s", "only causes that every reading of C01 rejects are used", "Kill counts as hung after 18 s (nominal 2-3 s)"},
 	})
 }
